@@ -397,6 +397,11 @@ func (w *ocspWorld) respond(c, cl string) (int, []byte) {
 		return 200, mk(claim, w.stranger, w.stranger.Cert, false, serial)
 	case "strangerEmbedded":
 		return 200, mk(claim, w.stranger, w.stranger.Cert, true, serial)
+	case "lookalikeEmbedded":
+		// a self-signed certificate that copies the issuer's subject name and serial number (another key), embedded: what names an
+		// issuer is not what binds a response to it
+		look := pki.NewCA(pki.CAOpts{Name: iss.Cert.Subject.CommonName, Serial: iss.Cert.SerialNumber.Int64(), RawName: iss.Cert.RawSubject})
+		return 200, mk(claim, look, look.Cert, true, serial)
 	case "ownCert":
 		own := &pki.CA{Key: w.leaves[c].Key, Cert: w.leaves[c].Cert}
 		return 200, mk(claim, own, own.Cert, true, serial)
